@@ -557,6 +557,8 @@ func BatchFunc[T any](
 				if len(batch) > 0 {
 					// Time already elapsed, just deliver the batch now.
 					if time.Since(batchStart) > maxWait {
+						// A timer started for this batch by an earlier waiter must not fire for the next one.
+						stopTimer()
 						if !flush() {
 							return
 						}
